@@ -96,20 +96,20 @@ const hashCap = 1 << 20
 
 // W is the per-worker context handed to Check.Run.
 type W struct {
-	Prop     string
-	Tier     string
-	Seed     int64
-	Thorough bool
-	res      Result
-	nt       map[uint64]struct{}
-	all      map[uint64]struct{}
-	vio      map[string]*Violation
-	deadline time.Time
-	tick     int
-	expired  bool
-	cur      atomic.Value // func() string describing the case in flight
-	curSeq   atomic.Int64
-	Unit     int
+	Prop      string
+	Tier      string
+	Seed      int64
+	Thorough  bool
+	res       Result
+	nt        map[uint64]struct{}
+	all       map[uint64]struct{}
+	vio       map[string]*Violation
+	deadline  time.Time
+	tick      int
+	expired   bool
+	cur       atomic.Value // func() string describing the case in flight
+	curSeq    atomic.Int64
+	Unit      int
 	Replaying bool
 }
 
@@ -129,11 +129,18 @@ func (w *W) Eval() { w.res.Evaluations++; w.curSeq.Add(1) }
 func (w *W) EvalN(n int64) { w.res.Evaluations += n; w.curSeq.Add(1) }
 
 // Trace counts one execution of the implementation compared with the model.
-func (w *W) Trace()              { w.res.Traces++ }
-func (w *W) State(n int64)       { w.res.States += n }
-func (w *W) Transition(n int64)  { w.res.Transitions += n }
-func (w *W) Skip()               { w.res.Skipped++ }
+func (w *W) Trace()                  { w.res.Traces++ }
+func (w *W) State(n int64)           { w.res.States += n }
+func (w *W) Transition(n int64)      { w.res.Transitions += n }
+func (w *W) Skip()                   { w.res.Skipped++ }
 func (w *W) Count(k string, n int64) { w.res.Counters[k] += n }
+
+// CountMax keeps the maximum of n under key "max_"+k (merged by maximum).
+func (w *W) CountMax(k string, n int64) {
+	if n > w.res.Counters["max_"+k] {
+		w.res.Counters["max_"+k] = n
+	}
+}
 func (w *W) Depth(d int) {
 	if d > w.res.MaxDepth {
 		w.res.MaxDepth = d
@@ -303,7 +310,7 @@ func (h *Hasher) U32(u uint32) {
 	h.Byte(byte(u >> 16))
 	h.Byte(byte(u >> 24))
 }
-func (h *Hasher) U64(u uint64) { h.U32(uint32(u)); h.U32(uint32(u >> 32)) }
+func (h *Hasher) U64(u uint64)  { h.U32(uint32(u)); h.U32(uint32(u >> 32)) }
 func (h *Hasher) F32(f float32) { h.U32(math.Float32bits(f)) }
 func (h *Hasher) F64(f float64) { h.U64(math.Float64bits(f)) }
 func (h *Hasher) Str(s string) {
